@@ -57,7 +57,7 @@ func (a Act) Rec() tr.E {
 		return tr.E{"op": a.Op, "any": a.Any}
 	case "push":
 		return tr.E{"op": a.Op, "v": a.V, "pr": a.Pr}
-	case "addw":
+	case "addw", "paddw":
 		return tr.E{"op": a.Op, "lane": a.Lane, "v": a.V, "val": a.class()}
 	case "waitclose", "waitclear":
 		return tr.E{"op": a.Op, "bg": a.Bg}
@@ -149,6 +149,7 @@ func (m *values) value(a Act) interface{} {
 		if p != nil {
 			return p
 		}
+		return &boxed{a.Val} // the earlier add was never issued: an equal value all the same
 	}
 	x := mkItem(m.rep, a.V)
 	if p, ok := x.(*boxed); ok {
@@ -269,7 +270,10 @@ func waitReply(err error) tr.E {
 
 // the pause of AddAnyway between two tries; it only matters when the lane stays full (the call is
 // then blocked by the property and is reported as such)
-const addwSleep = 5 * time.Millisecond
+const addwSleep = AddwSleep
+
+// AddwSleep is the pause handed to AddAnyway.
+const AddwSleep = time.Millisecond
 
 type pitem struct{ id, pr int }
 
@@ -639,7 +643,7 @@ func Supports(kind string, a Act) bool {
 			return kind == "mq"
 		}
 		return a.Lane == "req" && !(kind == "syncq" && a.Prior)
-	case "addw":
+	case "addw", "paddw":
 		if a.Lane == "ctrl" {
 			return kind == "mq"
 		}
@@ -756,7 +760,7 @@ func (m *Model) Apply(a Act) {
 // representation, otherwise one of the special values; `earlier` are the ids added before in this
 // trace with the default pointer representation (for "the same pointer again").
 func Dress(rnd func(int) int, kind string, rep int, a *Act, earlier []int) {
-	if a.Op != "add" && a.Op != "addw" && a.Op != "push" {
+	if a.Op != "add" && a.Op != "addw" && a.Op != "paddw" && a.Op != "push" {
 		return
 	}
 	if rnd(100) >= 22 {
